@@ -12,9 +12,11 @@
    .sort_values(by=Score, ascending=False)                    sort_desc            (ties: order left open, the harness
                                                               compares tie groups as multisets)
    if 'MI' in heuristic: (x - min) / (max - min)              normalise
-   interaction_order > 1: if 'AND' in fname:                  aggregated           (over the table just produced, i.e. the
+   interaction_order > 1: if ' AND ' in fname:                aggregated           (over the table just produced, i.e. the
        for el in fname.split('-')[0].split(' AND '): ...      already normalised scores for MI heuristics)
-   np.median(v) per key, keys in first-insertion order                                                          *)
+   np.median(v) per key, keys in first-insertion order
+   (x - min) / (max - min) with max = min (non-empty table)   NaN in every cell: [nan_table], cells are [None]
+   (before /repo baf07bf the test was  'AND' in fname : [feature_store_old], kept for the refutation witness)         *)
 From Coq Require Import List QArith Qabs ZArith NArith Bool Arith.
 From Outrank Require Import Rank.QMedian.
 Import ListNotations.
@@ -107,23 +109,45 @@ Definition normalise (l : list (name * Q)) : list (name * Q) :=
 
 Definition has_MI (heur : name) : bool := contains MI_ heur.
 
-(* feature_singles.tsv *)
+(* the table of medians in output order, before any normalisation *)
+Definition pre (lbl : name) (T : list triplet) : list (name * Q) := sort_desc (medians lbl T).
+
+(* feature_singles.tsv when every cell is a number *)
 Definition singles (heur lbl : name) (T : list triplet) : list (name * Q) :=
-  let m := sort_desc (medians lbl T) in
+  let m := pre lbl T in
   if has_MI heur then normalise m else m.
+
+(* an MI heuristic over a non-empty table whose medians all coincide: the code computes 0/0 and writes NaN (empty) cells *)
+Definition nan_table (heur lbl : name) (T : list triplet) : bool :=
+  has_MI heur && degenerate (map snd (pre lbl T)).
+
+Definition some_cells (l : list (name * Q)) : list (name * option Q) := map (fun r => (fst r, Some (snd r))) l.
+Definition nan_cells (l : list (name * Q)) : list (name * option Q) := map (fun r => (fst r, None)) l.
+
+(* feature_singles.tsv : None = NaN cell *)
+Definition singles_cells (heur lbl : name) (T : list triplet) : list (name * option Q) :=
+  if nan_table heur lbl T then nan_cells (pre lbl T) else some_cells (singles heur lbl T).
 
 (* handle_interaction_order *)
 Definition constituents (fname : name) : list name := split_on SEP_ (before_dash fname).
 
 Definition feature_store (final : list (name * Q)) : list (name * Q) :=
+  flat_map (fun r => if contains SEP_ (fst r) then map (fun el => (el, snd r)) (constituents (fst r)) else []) final.
+
+(* the rule before /repo baf07bf: any name containing the substring AND *)
+Definition feature_store_old (final : list (name * Q)) : list (name * Q) :=
   flat_map (fun r => if contains AND_ (fst r) then map (fun el => (el, snd r)) (constituents (fst r)) else []) final.
 
 (* feature_singles_aggregated.tsv *)
 Definition aggregated (final : list (name * Q)) : list (name * Q) := group_median (feature_store final).
 
-Definition summary (heur lbl : name) (order : Z) (T : list triplet) : list (name * Q) * option (list (name * Q)) :=
-  let s := singles heur lbl T in
-  (s, if (1 <? order)%Z then Some (aggregated s) else None).
+(* np.median over NaN scores is NaN; the keys depend on the names only *)
+Definition aggregated_cells (heur lbl : name) (T : list triplet) : list (name * option Q) :=
+  if nan_table heur lbl T then nan_cells (aggregated (pre lbl T)) else some_cells (aggregated (singles heur lbl T)).
+
+Definition summary (heur lbl : name) (order : Z) (T : list triplet)
+  : list (name * option Q) * option (list (name * option Q)) :=
+  (singles_cells heur lbl T, if (1 <? order)%Z then Some (aggregated_cells heur lbl T) else None).
 
 (* ---- names as the ranking task writes them:  c1 AND c2 AND ...  optionally followed by  -(cardinality; coverage) ---- *)
 Fixpoint join_and (cs : list name) : name :=
@@ -135,8 +159,10 @@ Fixpoint join_and (cs : list name) : name :=
 Definition render (cs : list name) (annot : option name) : name :=
   join_and cs ++ match annot with None => [] | Some a => DASH :: a end.
 
-(* a constituent / label name: no '-' and no blank (so ' AND ' can only be a joiner) *)
-Definition clean (c : name) : Prop := c <> [] /\ forall ch, In ch c -> ch <> DASH /\ ch <> 32%N.
+(* hypotheses on constituent / label names: no '-' (the label rule and the constituent rule cut at the first '-'), and the
+   joiner ' AND ' neither inside a constituent nor completed by its end (a constituent ending in ' AND') *)
+Definition nodash (c : name) : Prop := forall ch, In ch c -> ch <> DASH.
+Definition sepfree (c : name) : Prop := contains SEP_ (c ++ [32; 65; 78; 68]%N) = false.
 
 (* ---- executable property checker for an observed pair of tables (Appendix C) ---- *)
 Fixpoint sorted_descb (l : list Q) : bool :=
@@ -170,6 +196,30 @@ Definition aggregated_okb (tol : Q) (final : list (name * Q)) (obs : list (name 
   nodupn (map fst obs) && subsetn (map fst obs) (map fst a) && subsetn (map fst a) (map fst obs)
   && forallb (fun r => match scores_of (fst r) a with [v] => close tol (snd r) v | _ => false end) obs.
 
+(* the same over cells (None = NaN) *)
+Fixpoint unwrap (l : list (name * option Q)) : option (list (name * Q)) :=
+  match l with
+  | [] => Some []
+  | (f, Some v) :: t => match unwrap t with Some r => Some ((f, v) :: r) | None => None end
+  | (_, None) :: _ => None
+  end.
+Definition all_nan (l : list (name * option Q)) : bool :=
+  forallb (fun r => match snd r with None => true | Some _ => false end) l.
+
+Definition cells_okb (tol : Q) (heur lbl : name) (T : list triplet) (obs : list (name * option Q)) : bool :=
+  if nan_table heur lbl T
+  then nodupn (map fst obs) && subsetn (map fst obs) (map fst (medians lbl T))
+       && subsetn (map fst (medians lbl T)) (map fst obs) && all_nan obs
+  else match unwrap obs with Some o => singles_okb tol heur lbl T o | None => false end.
+
+Definition aggregated_cells_okb (tol : Q) (final obs : list (name * option Q)) : bool :=
+  match unwrap final with
+  | Some f => match unwrap obs with Some o => aggregated_okb tol f o | None => false end
+  | None => let a := aggregated (map (fun r => (fst r, 0)) final) in
+            all_nan final && all_nan obs && nodupn (map fst obs)
+            && subsetn (map fst obs) (map fst a) && subsetn (map fst a) (map fst obs)
+  end.
+
 Definition C18_case := (name * name * Z * list triplet)%type.
-Definition C18_obs := (list (name * Q) * option (list (name * Q)))%type.
+Definition C18_obs := (list (name * option Q) * option (list (name * option Q)))%type.
 Definition C18_model (c : C18_case) : C18_obs := let '(heur, lbl, order, T) := c in summary heur lbl order T.
